@@ -351,6 +351,12 @@ func (i *interpreter) symBinop(op token.Token, x, y value) value {
 				}
 			}
 		}
+		if b.IsConst() {
+			// x | (2^n-1) == x - x mod 2^n + (2^n-1)  (two's complement, floor mod)
+			if n, ok := isPow2Minus1(b.c); ok {
+				return tc.mkInt(tc.Add(tc.Sub(a, tc.Mod(a, tc.Const(new(big.Int).Lsh(bigOne, n)))), b), k)
+			}
+		}
 		panic(unsupported("bitwise OR of symbolic operands"))
 	case token.XOR, token.AND_NOT:
 		panic(unsupported("bitwise " + op.String() + " of symbolic operands"))
@@ -624,6 +630,30 @@ func (i *interpreter) concretize(v value, lo, hi int64, site string) int64 {
 	}
 	i.assume(i.tc.Eq(s.t, i.tc.ConstI(hi)), site)
 	return hi
+}
+
+// concreteIndex turns a symbolic index / length into a concrete one by bisecting its syntactic
+// interval with decisions (deterministic given the decision prefix).
+func (i *interpreter) concreteIndex(v value, site string) value {
+	s, ok := v.(symInt)
+	if !ok {
+		return v
+	}
+	lo, hi, ok := i.tc.rangeOf(s.t, 0)
+	if !ok || !lo.IsInt64() || !hi.IsInt64() || hi.Int64()-lo.Int64() > 4096 {
+		panic(unsupported("a symbolic integer (" + truncStr(s.t.String(), 80) + ") without a small known range is used as " + site))
+	}
+	l, h := lo.Int64(), hi.Int64()
+	for l < h {
+		mid := l + (h-l)/2
+		if i.decide(i.tc.Le(s.t, i.tc.ConstI(mid)), site) {
+			h = mid
+		} else {
+			l = mid + 1
+		}
+	}
+	i.assume(i.tc.Eq(s.t, i.tc.ConstI(l)), site)
+	return concreteOfKind(big.NewInt(l), s.k)
 }
 
 // strElems returns the byte-like elements of a string value (concrete bytes and opaque runs).
